@@ -52,26 +52,49 @@ def parseName (w : String) : Option Str :=
 
 def findKind (n : String) : Option Kind := Gen.kinds.find? (·.name == n)
 
-/-- index of the listed property a handler belongs to: the row reading a member the handler writes -/
-def canonRow (k : Kind) (a : Act) : Option Nat :=
-  (List.range k.gets.length).find? fun i => (k.reads i).any fun f => a.touched.contains f
+/-- the documentation of a kind (hand-written, `Record.docs`); S never looks at the generated setter chain -/
+def docFor (k : Kind) : Record.DocKind := (Record.docOf k.name).getD ⟨k.name, none, []⟩
 
-/-- S-level type of the property a handler sets -/
-def ptyOf (k : Kind) (a : Act) (row : Nat) : Record.PTy :=
-  match a with
-  | .conv ty f =>
-    match k.gets[row]? with
-    | some g => if g.ty = -2 then (if f = g.field then .pointX else .pointY) else .scalar ty
-    | none => .scalar ty
-  | .string _ => .string
-  | .colour _ _ => .colour
-  | .lattr _ _ lo hi _ => .ranged lo hi
-  | .axisPos _ => .firstChar
-  | .linePos _ => .scalar 'f'
-  | .fpoint _ lo hi _ => .point lo hi
-  | .intervals _ _ _ _ => .countOrLog
-  | .align _ => .alignFlags
-  | .clip _ => .clipAxes
+/-- a number of C type `t` fits that type -/
+def intFits (t : Char) (n : Int) : Bool :=
+  match t with
+  | 'y' => decide (0 ≤ n ∧ n ≤ 255) | 'n' => decide (-32768 ≤ n ∧ n ≤ 32767) | 'u' => decide (0 ≤ n ∧ n ≤ 4294967295)
+  | 'c' => decide (0 ≤ n ∧ n ≤ 127) | 'i' => decide (-2147483648 ≤ n ∧ n ≤ 2147483647) | _ => false
+
+/-- S for a typed value `x` of C type `t` given to a property of documented type `ty` with value `old`: the value
+    the property reads back as (none: the property cannot hold it) and whether the set has to be accepted (the
+    value is of the property's own type and inside its limits) -/
+def typedOutcome (ty : Record.PTy) (old : Val) (t : Char) (x : Val) : Option Val × Bool :=
+  let num (target : Char) : Option Val × Bool :=
+    match x with
+    | .int n =>
+      if target == 'f' ∨ target == 'd' then (if t == 'i' then some (.flt (Fl.norm n 0)) else none, false)
+      else if intFits target n then (some (.int n), t == target) else (none, false)
+    | .flt _ => if t == target then (some x, true) else if t == 'd' ∧ target == 'f' then (some x, false) else (none, false)
+    | .chr _ => if t == target then (some x, true) else (none, false)
+    | _ => (none, false)
+  match ty with
+  | .scalar target => num target
+  | .ranged lo hi =>
+    match x with
+    | .int n => if (lo : Int) ≤ n ∧ n ≤ hi then (some x, t == 'y') else (none, false)
+    | _ => (none, false)
+  | .firstChar => if t == 'c' then (some x, true) else (none, false)
+  | .countOrLog => num 'y'
+  | .alignFlags => num 'y'
+  | .clipAxes =>
+    match num 'y' with
+    | (some (.int n), m) => (some (Record.showClip n.toNat), m)
+    | r => r
+  | .pointX =>
+    match num 'f', old with
+    | (some (.flt f), m), .pt _ y => (some (.pt f y), m)
+    | _, _ => (none, false)
+  | .pointY =>
+    match num 'f', old with
+    | (some (.flt f), m), .pt x0 _ => (some (.pt x0 f), m)
+    | _, _ => (none, false)
+  | _ => (none, false)
 
 def defaultsRec (k : Kind) : Record.Rec := k.dump k.defaults
 
@@ -117,20 +140,17 @@ def step (s : St) (w : List String) : St × String :=
              line (if out.ret.isOk then "ok" else "refused") dm (fmtRet out.ret) alts)
           else
           let out := k.setProp Gen.colors ob.m name src s.tok
-          -- S: refusal without change, or the named property takes the denoted value
+          -- S (from the documentation only): a name that is not documented is refused; a documented name gives
+          -- the property a value the text denotes (no source / blank: its default); refusal without change is
+          -- allowed when the text denotes nothing for the property, or the name is not spelled as documented
+          let (hits, exact) := (docFor k).setHits name
+          let v : Option (Option Str) := match src with | .text t => some t | _ => none
           let okAlts : List Record.Rec :=
-            match findSet k.sets name with
-            | none => []
-            | some e =>
-              match canonRow k e.act with
-              | none => []
-              | some row =>
-                match k.gets[row]? with
-                | none => []
-                | some g =>
-                  let v : Option (Option Str) := match src with | .text t => some t | _ => none
-                  Record.setOutcomes Gen.colors ob.s (defaultsRec k) g.name (ptyOf k e.act row) v
-          let alts := ("refused", fmtDump ob.s) :: okAlts.map (fun r => ("ok", fmtDump r))
+            hits.flatMap fun p => Record.setOutcomes Gen.colors ob.s (defaultsRec k) p.listed p.ty v
+          -- (a text of blanks only denotes no value: it may be taken as "no value" or be refused)
+          let blanks : Bool := match src with | .text (some (c :: r)) => Record.blank (some (c :: r)) | _ => false
+          let mayRefuse : Bool := !exact || okAlts.isEmpty || blanks
+          let alts := (if mayRefuse then [("refused", fmtDump ob.s)] else []) ++ okAlts.map (fun r => ("ok", fmtDump r))
           match out.ret with
           | .unsup => (s, line "unsupported" (fmtDump (k.dump ob.m)) "unsup" [("*", "*")])
           | ret =>
@@ -167,28 +187,13 @@ def step (s : St) (w : List String) : St × String :=
         | some x =>
           let k := ob.kind
           let out := k.setProp Gen.colors ob.m name (.typed t x) s.tok
-          -- S: refused without change, or the property reads back as the value given
-          let okAlts : List Record.Rec :=
-            match findSet k.sets name with
-            | none => []
-            | some e =>
-              match canonRow k e.act with
-              | none => []
-              | some row =>
-                match k.gets[row]? with
-                | none => []
-                | some g =>
-                  let shown : Val := match e.act, x with
-                    | .clip _, .int n => Record.showClip n.toNat
-                    | .conv 'f' _, .int n => if t == 'i' then .flt (Fl.norm n 0) else x
-                    | .conv 'd' _, .int n => if t == 'i' then .flt (Fl.norm n 0) else x
-                    | .linePos _, .int n => if t == 'i' then .flt (Fl.norm n 0) else x
-                    | _, _ => x
-                  match ptyOf k e.act row, (Record.get ob.s g.name).getD (.int 0), shown with
-                  | .pointX, .pt _ y, .flt f => [Record.set ob.s g.name (.pt f y)]
-                  | .pointY, .pt x0 _, .flt f => [Record.set ob.s g.name (.pt x0 f)]
-                  | _, _, _ => [Record.set ob.s g.name shown]
-          let alts := ("refused", fmtDump ob.s) :: okAlts.map (fun r => ("ok", fmtDump r))
+          -- S (documentation only): the property reads back as the value given; refusal without change unless
+          -- the value has the property's own type and lies inside its limits
+          let (hits, exact) := (docFor k).setHits name
+          let outs := hits.map fun p => typedOutcome p.ty ((Record.get ob.s p.listed).getD (.int 0)) t x |>.map (·.map (Record.set ob.s p.listed)) id
+          let okAlts : List Record.Rec := outs.filterMap (·.1)
+          let mayRefuse : Bool := !exact || okAlts.isEmpty || outs.any (fun o => !o.2)
+          let alts := (if mayRefuse then [("refused", fmtDump ob.s)] else []) ++ okAlts.map (fun r => ("ok", fmtDump r))
           match out.ret with
           | .unsup => (s, line "unsupported" (fmtDump (k.dump ob.m)) "unsup" [("*", "*")])
           | ret =>
@@ -206,26 +211,40 @@ def step (s : St) (w : List String) : St × String :=
         if name.isEmpty then (s, "bad-op") else
         let k := ob.kind
         let dm := fmtDump (k.dump ob.m)
-        -- S: refusal, or the value of the one listed property the name stands for
+        -- S (documentation only): the value of the one listed property the name stands for; a listed name
+        -- as documented is never refused; a name that stands for nothing, or for more than one, is refused
+        let d := docFor k
+        let coord : List (String × String) := d.props.filterMap fun p =>
+          if p.names.contains name then
+            match p.ty, Record.get ob.s p.listed with
+            | .pointX, some (.pt x _) => some (s!"ok {bytesToString name}={fmtVal (.flt x)}", fmtDump ob.s)
+            | .pointY, some (.pt _ y) => some (s!"ok {bytesToString name}={fmtVal (.flt y)}", fmtDump ob.s)
+            | _, _ => none
+          else none
+        let (hits, must) := d.getHits name
+        let named : List (String × String) :=
+          match hits with
+          | [p] => match Record.get ob.s p with
+            | some v => [(s!"ok {bytesToString p}={fmtVal v}", fmtDump ob.s)]
+            | none => []
+          | _ => []
         let sAlts : List (String × String) :=
-          let single := k.single.filterMap fun g =>
-            if g.name == name then
-              match Record.get ob.s ((k.gets.find? (fun e => e.ty = -2 ∧ (e.field = g.field ∨ e.field + 1 = g.field))).map (·.name) |>.getD []) with
-              | some (.pt x y) =>
-                let isX := (k.gets.any fun e => e.ty = -2 ∧ e.field = g.field)
-                some (s!"ok {bytesToString g.name}={fmtVal (.flt (if isX then x else y))}", fmtDump ob.s)
-              | _ => none
-            else none
-          let named := match Record.candidates k.matchLen ob.s name with
-            | [p] => match Record.get ob.s p with
-              | some v => [(s!"ok {bytesToString p}={fmtVal v}", fmtDump ob.s)]
-              | none => []
-            | _ => []
-          ("refused", fmtDump ob.s) :: (single ++ named)
+          if !coord.isEmpty then ("refused", fmtDump ob.s) :: coord
+          else (if must ∧ !named.isEmpty then [] else [("refused", fmtDump ob.s)]) ++ named
         match k.getProp ob.m name with
         | some (n, v) => (s, line s!"ok {bytesToString n}={fmtVal v}" dm "ok" sAlts)
         | none => (s, line "refused" dm "err" sAlts)
     | _, _ => (s, "bad-op")
+  | ["y", "whole", ks] =>
+    match ks.toNat? with
+    | some ki =>
+      match s.objs[ki]? with
+      | none => (s, "bad-op")
+      | some ob =>
+        let k := ob.kind
+        -- `get ""`: the kind's name (the result code, a memcmp with the defaults over padding bytes, is not compared)
+        (s, line s!"ok {k.name}" (fmtDump (k.dump ob.m)) "ok" [(s!"ok {k.name}", fmtDump ob.s)])
+    | none => (s, "bad-op")
   | ["y", "reset", ks] =>
     match ks.toNat? with
     | some ki =>
